@@ -1,24 +1,8 @@
 import Imdlv.Model.Peer
+import Driver.Url
 import Imdlv.Model.Digest
 namespace Driver.C11
 open Imdlv Imdlv.Peer Imdlv.Metainfo
-
-def urlOk (s : Bytes) : Bool :=
-  -- `scheme://…` with an alphabetic scheme (the forms the harness generates; `Url::parse` itself is not modelled)
-  let scheme := s.takeWhile fun b => (97 ≤ b && b ≤ 122) || (65 ≤ b && b ≤ 90)
-  !scheme.isEmpty && (s.drop scheme.length).take 3 == [58, 47, 47]
-
-/-- URLs that `Url::parse` leaves exactly as they are: lower-case scheme, `://`, a lower-case host
-without userinfo, and a non-empty path of unreserved characters -/
-def urlNormal (s : Bytes) : Bool :=
-  let lower := fun (b : UInt8) => 97 ≤ b && b ≤ 122
-  let digit := fun (b : UInt8) => 48 ≤ b && b ≤ 57
-  let scheme := s.takeWhile lower
-  let rest := s.drop scheme.length
-  let host := (rest.drop 3).takeWhile fun b => lower b || digit b || b == 46 || b == 45
-  let path := (rest.drop 3).drop host.length
-  !scheme.isEmpty && rest.take 3 == [58, 47, 47] && !host.isEmpty && path.head? == some 47 &&
-    path.all fun b => lower b || digit b || (65 ≤ b && b ≤ 90) || b == 47 || b == 46 || b == 45 || b == 95 || b == 126
 
 def errName : FErr → String
   | .network => "Network" | .handshakeHeader => "PeerHandshakeHeader" | .handshakeInfohash => "PeerHandshakeInfohash"
@@ -42,8 +26,8 @@ def handle (args : List String) : String :=
         | .error e r => s!"err {errName e} {reqs r}"
       -- URL normalisation by the `url` crate is not modelled: when the outcome depends on whether a URL that
       -- is not already in normal form is accepted as it stands, the case is outside the model
-      let a := show1 (fetch (readersC urlOk) Digest.sha1 id t inc)
-      let b := show1 (fetch (readersC urlNormal) Digest.sha1 id t inc)
+      let a := show1 (fetch (readersC Url.urlAny) Digest.sha1 id t inc)
+      let b := show1 (fetch (readersC Url.urlNormal) Digest.sha1 id t inc)
       if a == b then a else "out-of-model"
     | _, _ => "bad-op"
   | _ => "bad-op"
